@@ -10,7 +10,7 @@ from vf.xmodel import Schema, Rop, build_api, build_loader
 
 SHARDS = {'quick': 16, 'thorough': 32}
 TIMEOUT = {'quick': 900, 'thorough': 5400}
-MUST_HIT = ['IdFresh.second-generator-of-the-same-kind-in-use', 'Schema.attributes-given-as-one-shot-iterable', 'Ambient.IdFresh.ambient', 'Ambient.Suite.tests-passed', 'IdFresh.long-run-ids', 'IdFresh.instance-attribute', 'Generator.user-source-sequence', 'Generator.swapped', 'ArgModel.creation', 'IdFresh.defaulted-id', 'IdFresh.generator-next', 'Generator.peek',
+MUST_HIT = ['IdFresh.metamodel-object-dropped', 'IdFresh.second-generator-of-the-same-kind-in-use', 'Schema.attributes-given-as-one-shot-iterable', 'Ambient.IdFresh.ambient', 'Ambient.Suite.tests-passed', 'IdFresh.long-run-ids', 'IdFresh.instance-attribute', 'Generator.user-source-sequence', 'Generator.swapped', 'ArgModel.creation', 'IdFresh.defaulted-id', 'IdFresh.generator-next', 'Generator.peek',
             'Generator.integer-sequence', 'UnknownType.rejected', 'Referential.argument',
             'Schema.association-formalized-after-creations', 'Schema.iterations-between-definition-and-formalization', 'Schema.attribute-replaced',
             'Schema.attribute-added', 'Schema.attribute-removed', 'Generator.drawn-by-for-break',
@@ -422,6 +422,57 @@ def long_run(ctx, rng):
         ctx.case(('long', gkind, n, ctx.shard), True)
 
 
+def handles_only(ctx, rng):
+    '''
+    A caller that keeps the class handles (and the generator) of a metamodel but not the metamodel object itself - a
+    helper that defines a schema and returns its classes: creation through the handle still draws every defaulted
+    id from that metamodel's generator.
+    '''
+    import gc
+    import xtuml
+    for gkind in ('integer', 'uuid', 'user'):
+        def define():
+            log = []
+            gen = make_generator(rng, gkind, log)
+            m = xtuml.MetaModel(gen)
+            k = m.define_class('K', [('Id', 'unique_id'), ('N', 'integer'), ('S', 'string'), ('B', 'boolean'),
+                                     ('R', 'real'), ('Other', 'UNIQUE_ID')])
+            if rng.random() < 0.5:
+                k.new()
+            return k, gen, log
+        k, gen, log = define()
+        gc.collect()
+        seen = set(log)
+        for i in range(rng.randint(3, 12)):
+            ctx.hit('IdFresh.metamodel-object-dropped')
+            n0 = len(log)
+            p = gen.peek()
+            how = rng.random()
+            if how < 0.5:
+                inst = k.new()
+            elif how < 0.8:
+                inst = k.new(N=5, s='x')
+            else:
+                gc.collect()
+                inst = k.new()
+            drawn = log[n0:]
+            got = [inst.Id, inst.Other]
+            if got != drawn or (drawn and drawn[0] != p):
+                raise Mismatch('id/not-from-generator', 'creation through a class handle whose metamodel object is no longer '
+                               'referenced (%s generator): ids %r, the generator handed out %r (peek said %r)'
+                               % (gkind, got, drawn, p))
+            for v in got:
+                if not v or v in seen:
+                    raise Mismatch('id/null' if not v else 'id/repeated', 'creation through a class handle whose metamodel '
+                                   'object is no longer referenced (%s generator): defaulted id %r' % (gkind, v))
+                seen.add(v)
+            vals = (inst.N, inst.S, inst.B, inst.R)
+            want = (5, 'x', False, 0.0) if 0.5 <= how < 0.8 else (0, '', False, 0.0)
+            if vals != want or type(inst.B) is not bool or type(inst.R) is not float:
+                raise Mismatch('defaults/values', 'creation through a class handle: attributes %r, expected %r' % (vals, want))
+        ctx.case(('handles-only', gkind, ctx.shard, len(seen)), True)
+
+
 def run(ctx):
     rng = ctx.rng
     if ctx.shard == ctx.nshards - 1:
@@ -433,6 +484,11 @@ def run(ctx):
         long_run(ctx, rng)
     except Mismatch as e:
         ctx.violation(e.key, e.what, case=dict(shard=ctx.shard, case='long-run'))
+    for _ in range(20 if ctx.tier == 'quick' else 400):
+        try:
+            handles_only(ctx, rng)
+        except Mismatch as e:
+            ctx.violation(e.key, e.what, case=dict(shard=ctx.shard, case='handles-only'))
     for i in range(ctx.share(8000 if ctx.tier == 'quick' else 200000)):
         try:
             run_case(ctx, rng, i)
